@@ -121,6 +121,21 @@ chk(
     "DESIGN.md 4 C09",
 )
 
+chk(
+    "C10",
+    "bounded-exhaustive enumeration of every value the splitter produces for frame token sequences + seeded Hypothesis grammar values; lexical strip oracle, round trip (reuse), re-parse round trip through the splitter, integer-rule table",
+    "Exploration: every distinct field and @string value that the splitter yields for <= 5 (quick) / <= 6 (thorough) frame tokens (nested braces, quotes in braces, concatenations, empty and single-character values such as a lone quote), random grammar values, ints and digit strings x all 8 AddEnclosing option sets x numeric / other field keys x in-place / copy: removal must equal the lexical one-layer strip with the kind recorded; reuse must restore the value exactly; for brace-balanced contents not ending in a backslash the default enclosing must re-parse (bare Splitter) as one field / string with that text and content; the integer rule must hold and nothing may raise.",
+    "Trusted: strip1()/balanced() in pbt/props/C10.py. Contents containing a block opener '@word{' are outside the re-parse domain (the splitter cannot produce them); non-ASCII digit strings are only required not to raise.",
+    "DESIGN.md 4 C10",
+)
+chk(
+    "C11",
+    "constructive ground truth over grammar derivations dense in @string definitions and reference look-alikes (finite product + seeded Hypothesis)",
+    "Exploration: the finite product of 6 definition placements (none, before, after, twice, after+twice, other-case key) x 6 definition values x 18 value shapes (bare defined / undefined / other-case key, braced, quoted, concatenations, numbers, prefixes) for one and two fields, plus random documents with 0-3 definitions per key from {s, t, S} anywhere in the document: after default parse_string a field holds the one-layer-stripped value of the first definition iff its source value is a bare identifier equal to a defined key, otherwise its own stripped value; string blocks stay in place with their key and stripped value, the first definition is the registered one; the entry metadata lists exactly the resolved field keys; with the middleware alone non-entry blocks are canonically unchanged.",
+    "Trusted: pbt/bibgen.py render() as ground truth, strip1(). Entry and field keys are unique in this check (collisions are C09's subject).",
+    "DESIGN.md 4 C11",
+)
+
 ALL = ["C%02d" % i for i in range(1, 21)]
 NOT_YET = "check not built yet in this revision of /verif (see DESIGN.md section 4 for its design); not claimed"
 
